@@ -773,6 +773,10 @@ def get_time_maps_from_alignment(
             np.where(np.logical_and(score_onsets == u, score_durations > 0))[0]
             for u in score_unique_onsets
         ]
+        # onsets at which only ornaments were matched are no reference points
+        keep = [len(u) > 0 for u in score_unique_onset_idxs]
+        score_unique_onsets = score_unique_onsets[keep]
+        score_unique_onset_idxs = [u for u in score_unique_onset_idxs if len(u) > 0]
 
     else:
         score_unique_onset_idxs = [
